@@ -99,7 +99,7 @@ def FrameOf (bpms : List Tp) (l : List Row) : Prop :=
   (∀ t b, (t, some b) ∈ l → (⟨t, b⟩ : Tp) ∈ bpms) ∧ (∀ p ∈ bpms, (p.time, some p.bpm) ∈ l)
 
 /-- no valueless row precedes a valued row with the same offset (what a *stable* sort of
-`tempo rows ++ marker rows` guarantees, and an unstable one does not: finding D42) -/
+`tempo rows ++ marker rows` guarantees, and an unstable one does not: finding D28) -/
 def ValuedFirst (l : List Row) : Prop :=
   ∀ a b t, l = a ++ (t, none) :: b → ∀ r ∈ b, r.1 = t → r.2 = none
 
@@ -124,7 +124,7 @@ def tempoOkB (bpms : List Tp) : Bool :=
 def lastOkB (bpms : List Tp) (last : Rat) : Bool := bpms.all fun p => decide (p.time ≤ last)
 
 /-- the row at the last stacked offset shares its offset with a tempo point that changes the bpm: the sort of
-the tempo frame has a tie whose order decides the result (finding D23: numpy's sort is not stable) -/
+the tempo frame has a tie whose order decides the result (finding D28: numpy's sort is not stable) -/
 def tieAtMaxB (bpms : List Tp) (omax : Rat) : Bool :=
   bpms.any fun p => decide (p.time = omax) &&
     bpms.any (fun q => decide (q.time < p.time) && decide (q.bpm ≠ p.bpm) &&
